@@ -180,7 +180,28 @@ Theorem C16_invariant_after_every_history_with_resets :
          length lines + 4 < 2 ^ 31 -> Inv2R (exec c lines) (length lines) (r2r_epoch_of c lines).
 Proof. exact reachable_inv2R. Qed.
 
-Definition C16_all := (C16_reset_succeeds_histories_with_observers, C16_reset_yields_a_fresh_world, C16_new_world_is_fresh, C16_every_history_from_a_fresh_world_keeps_the_invariant, C16_reset_in_every_state_of_a_history_with_resets, C16_invariant_after_every_history_with_resets, C16_reset_succeeds_histories_with_queries, C16_reset_rejected_when_locked, C16_reset_succeeds_relation_histories, C16_reset_conditions_AB_are_invariants, C16_archetypes_always_have_their_table,
+(** ** Second sentence of C16: after Reset every history has the same outcome as on a new world (ResetBisim) *)
+From Ark Require Proofs.ResetBisim.
+
+Theorem C16_after_reset_every_core_history_as_on_a_new_world :
+  forall debug c s n k os1 os2,
+  Inv2R s n k -> is_locked s = false -> cfg_ok2 c -> w_reg s = sc_kinds c ->
+  let s' := state_of (step_op debug OReset s) in
+  ResetBisim.rb_hist debug s' (init_world c) os1 os2 ->
+  ResetBisim.Sim (fst (ResetBisim.rb_run debug s' os1)) (fst (ResetBisim.rb_run debug (init_world c) os2)) /\
+  snd (ResetBisim.rb_run debug s' os1) = snd (ResetBisim.rb_run debug (init_world c) os2).
+Proof. exact ResetBisim.rb_C16_after_reset_as_new. Qed.
+
+Theorem C16_reset_world_similar_to_new_world :
+  forall debug c s n k, Inv2R s n k -> is_locked s = false -> cfg_ok2 c -> w_reg s = sc_kinds c ->
+  exists s', step_op debug OReset s = Ok [] s' /\ w_issued s' = w_issued s /\ ResetBisim.Sim s' (init_world c).
+Proof. exact ResetBisim.rb_reset_sim_new. Qed.
+
+Definition C16_bisim_step := (ResetBisim.rb_step_strong, ResetBisim.rb_step_sim, ResetBisim.rb_hist_sim, ResetBisim.rb_shift_handle).
+Definition C16_bisim_example := (ResetBisim.rb_example_sim, ResetBisim.rb_example_hist, ResetBisim.rb_example_outputs).
+Definition C16_stats_not_preserved_refuted := ResetBisim.rb_stats_refuted.
+
+Definition C16_all := (C16_after_reset_every_core_history_as_on_a_new_world, C16_reset_world_similar_to_new_world, C16_bisim_step, C16_bisim_example, C16_stats_not_preserved_refuted, C16_reset_succeeds_histories_with_observers, C16_reset_yields_a_fresh_world, C16_new_world_is_fresh, C16_every_history_from_a_fresh_world_keeps_the_invariant, C16_reset_in_every_state_of_a_history_with_resets, C16_invariant_after_every_history_with_resets, C16_reset_succeeds_histories_with_queries, C16_reset_rejected_when_locked, C16_reset_succeeds_relation_histories, C16_reset_conditions_AB_are_invariants, C16_archetypes_always_have_their_table,
   C16_reset_relation_worlds, C16_relation_example, C16_reset_empty, C16_reset_locked_rejected, C16_reset_needs_every_archetype_to_have_a_table,
   C16_reset_clears_observers).
 Print Assumptions C16_all.
